@@ -212,6 +212,8 @@ impl<L: Language, N: Analysis<L>> EGraph<L, N> {
         // class itself), hence we repeat until the e-node covers all slots of its class.
         while !i.slots().is_subset(&enode.slots()) {
             #[cfg(slotted_egraphs_verif)]
+            crate::verif::tick();
+            #[cfg(slotted_egraphs_verif)]
             crate::verif::probe("shrink_in_upwards_merge");
             self.handle_shrink_in_upwards_merge(src_id);
 
